@@ -853,7 +853,7 @@ def expand(unit_path, twin=False, repo=None):
                 if all_ == "-re":
                     # pattern with captures (\\1 ...): the captured source text is carried over verbatim
                     text, cnt = re.subn(old, new, text)
-                    if cnt != 1:
+                    if cnt < 1:
                         raise WeaveError("%s :: %s: replace-re[%s] %r matched %d times" % (file, " :: ".join(path), rule, old, cnt))
                     applied.append({"rule": rule, "old": old, "new": new, "count": cnt})
                     continue
